@@ -56,7 +56,8 @@ func SafeMul[T Integer](x T, y T) (T, error) {
 
 	result := x * y
 
-	if result/x != y {
+	// the division has to be checked in both directions, because MinInt / -1 wraps around to MinInt again.
+	if result/x != y || result/y != x {
 		return 0, ierrors.WithMessagef(ErrIntegerOverflow, "%d * %d", x, y)
 	}
 
@@ -179,13 +180,20 @@ func SafeDiv[T Integer](x T, y T) (T, error) {
 		return 0, ierrors.WithMessagef(ErrIntegerDivisionByZero, "%d / %d", x, y)
 	}
 
-	return x / y, nil
+	result := x / y
+
+	// the only division that can overflow is MinInt / -1, which wraps around to MinInt again.
+	if x < 0 && y < 0 && result < 0 {
+		return 0, ierrors.WithMessagef(ErrIntegerOverflow, "%d / %d", x, y)
+	}
+
+	return result, nil
 }
 
 func SafeLeftShift[T Integer](val T, shift uint8) (T, error) {
 	result := val << shift
-	// if the result is smaller than the original value, we have an overflow
-	if result < val {
+	// if shifting the result back does not yield the original value, bits (or the sign) were lost.
+	if result>>shift != val {
 		return 0, ierrors.WithMessagef(ErrIntegerOverflow, "%d << %d", val, shift)
 	}
 
